@@ -127,6 +127,7 @@ fn run_case(seed: u64, idx: u64, _tier: Tier, out: &mut CaseOut) {
         1 => p.boundary = Some((w / 2).max(1)),
         _ => {}
     }
+    p.href_controls = rng.chance(1, 3);
     p.wide_permille = *rng.pick(&[0usize, 80, 300]);
     p.comb_permille = *rng.pick(&[0usize, 40, 150]);
     if rng.chance(1, 3) {
